@@ -199,17 +199,20 @@ type c19ResvCfg struct {
 // Non0AllocatedMilliCPU / Non0AllocatedMem: scoring inputs with kube-scheduler's "non-zero request" defaults (100m /
 // 200MB substituted when a resource key is ABSENT from Allocated) - they depend on whether a released amount is kept as
 // an explicit 0 or the map is nil, i.e. on representation, and nobody holds them (differences are counted as
-// diagnostics); matchableOnNode is compared as the set of members whose ReservationInfo IsMatchable(): a consumed
-// allocate-once reservation stays a (stale) member until the next reservation event is handled and every consumer
-// re-checks it (FilterNominateReservation) - DESIGN 3.1 names "matchable map = IsMatchable set" a diagnostic of C05,
-// raw differences are counted.
+// diagnostics); matchableOnNode (the lookup of reservations offered for matching) is not allocation state either: a
+// consumed allocate-once reservation stays a stale member until the next reservation event is handled, and one whose
+// owner pod left is re-entered only by the next reservation event, so its membership depends on event timing while
+// the ledgers agree; every consumer re-checks the ReservationInfo (FilterNominateReservation). DESIGN 3.1 names
+// "matchable map = IsMatchable set" an implementation-mirroring diagnostic of C05: differences are counted, not judged.
+// What IS judged about matchability: the ReservationInfo's own IsMatchable() (ledger line) and the explicit clause that
+// a consumed allocate-once reservation is not matchable after the rebuild.
 
 type c19ResvDump struct{ sections map[string][]string }
 
-var c19ResvSections = []string{"ledger", "assigned", "index-on-node", "index-matchable", "index-allocated", "candidates"}
+var c19ResvSections = []string{"ledger", "assigned", "index-on-node", "index-allocated", "candidates"}
 
 // c19ResvDiagSections are rendered and counted but never judged (see above).
-var c19ResvDiagSections = []string{"diag-non0", "diag-index-matchable-raw"}
+var c19ResvDiagSections = []string{"diag-non0", "diag-index-matchable"}
 
 func c19ResvFmtRL(rl corev1.ResourceList) string {
 	ks := make([]string, 0, len(rl))
@@ -292,14 +295,7 @@ func c19ResvTakeDump(c *reservationCache) *c19ResvDump {
 		}
 	}
 	d.sections["index-on-node"] = c19ResvIndex(c.reservationsOnNode)
-	d.sections["diag-index-matchable-raw"] = c19ResvIndex(c.matchableOnNode)
-	for node, uids := range c.matchableOnNode {
-		for uid := range uids {
-			if ri := c.reservationInfos[uid]; ri != nil && ri.IsMatchable() {
-				d.sections["index-matchable"] = append(d.sections["index-matchable"], fmt.Sprintf("%s:%s", node, uid))
-			}
-		}
-	}
+	d.sections["diag-index-matchable"] = c19ResvIndex(c.matchableOnNode)
 	d.sections["index-allocated"] = c19ResvIndex(c.allocatedOnNode)
 	for node, pc := range c.preAllocatablePodsOnNode {
 		d.sections["candidates"] = append(d.sections["candidates"], fmt.Sprintf("%s:%d", node, len(pc.index)))
@@ -408,7 +404,7 @@ func c19ResvOps(cfg *c19ResvCfg) []c19ResvOp {
 		ops = append(ops,
 			c19ResvOp{fmt.Sprintf("informer-bind-update(slot%d)", j), c19ResvOpSeesBind, j, 0},
 			c19ResvOp{fmt.Sprintf("delete(slot%d)", j), c19ResvOpDelete, j, 0},
-			c19ResvOp{fmt.Sprintf("terminate(slot%d)", j), c19ResvOpTerminate, j, 0},
+			c19ResvOp{fmt.Sprintf("terminated=leaves-the-filtered-watch(slot%d)", j), c19ResvOpTerminate, j, 0},
 		)
 	}
 	for i, sp := range cfg.specs {
@@ -526,6 +522,18 @@ func (s *c19ResvSys) reserve(i int, pod *corev1.Pod) (fwktype.CycleState, bool) 
 		panic("c19: Reserve succeeded without assuming a reservation")
 	}
 	return cs, true
+}
+
+// seeBind: the informer delivers the scheduler's own writes: the PreBind patch, then the binding
+func (s *c19ResvSys) seeBind(p *c19ResvPod) {
+	if p.seenBind {
+		return
+	}
+	patched := p.obj.DeepCopy()
+	patched.Spec.NodeName, patched.ResourceVersion, patched.Status.Phase = "", "2", corev1.PodPending
+	s.ph.OnUpdate(p.pending, patched)
+	s.ph.OnUpdate(patched, p.obj)
+	p.seenBind = true
 }
 
 func (s *c19ResvSys) Apply(opi int, check bool) (bool, []mc.Violation) {
@@ -688,28 +696,26 @@ func (s *c19ResvSys) Apply(opi int, check bool) (bool, []mc.Violation) {
 	p := s.pods[op.a]
 	switch op.kind {
 	case c19ResvOpSeesBind:
-		if p.seenBind || p.terminated {
+		if p.seenBind {
 			return false, nil
 		}
-		patched := p.obj.DeepCopy()
-		patched.Spec.NodeName, patched.ResourceVersion, patched.Status.Phase = "", "2", corev1.PodPending
-		s.ph.OnUpdate(p.pending, patched)
-		s.ph.OnUpdate(patched, p.obj)
-		p.seenBind = true
+		s.seeBind(p)
 	case c19ResvOpDelete:
+		s.seeBind(p) // events of one object are ordered: the bind updates precede the delete
 		s.ph.OnDelete(p.obj)
 		s.pods = append(append([]*c19ResvPod{}, s.pods[:op.a]...), s.pods[op.a+1:]...)
 		if check {
 			s.count("pod_deletes", 1)
 		}
 	case c19ResvOpTerminate:
-		if p.terminated {
-			return false, nil
-		}
+		// the scheduler's pod informer filters on status.phase != Succeeded/Failed (kube-scheduler's newPodInformer, which
+		// koord-scheduler keeps): a pod that terminates leaves the watch, i.e. it is delivered as a DELETE carrying the
+		// terminated object, and it is not listed after a restart
+		s.seeBind(p)
 		done := p.obj.DeepCopy()
 		done.Status.Phase, done.ResourceVersion = corev1.PodSucceeded, "4"
-		s.ph.OnUpdate(p.obj, done)
-		p.obj, p.terminated = done, true
+		s.ph.OnDelete(done)
+		s.pods = append(append([]*c19ResvPod{}, s.pods[:op.a]...), s.pods[op.a+1:]...)
 		if check {
 			s.count("pod_terminations", 1)
 		}
@@ -1067,7 +1073,7 @@ func c19ResvCfgs() []*c19ResvCfg {
 			{name: "cpu2-mem2Gi-foo1", req: c19ResvVec{2000, 2 * c19ResvGi, 1}},
 			{name: "cpu500m-port8080", req: c19ResvVec{500, 0, 0}, hostPort: 8080},
 		},
-		maxPods: 4, depthQ: 3, depthT: 5, share: 1,
+		maxPods: 4, depthQ: 4, depthT: 5, share: 1,
 	}}
 }
 
